@@ -359,12 +359,145 @@ def materialize(params):
     return q
 
 
+
+# --------------------------------------------------------------------------------------------------
+# results must not alias shared state: generic protocol applied to every implementation call of every kind.
+# After a call, the arrays it returned are copied (the copies are what gets compared) and the ORIGINALS are overwritten
+# in place with NaN, as a caller post-processing its results in place would do.  Then
+#   * the arrays returned by the previous calls must STILL be all NaN after every later call (a later call that writes into
+#     them handed out a view of a shared work buffer), and
+#   * for a share of the cases the same call is made a second time: it must return what the first call returned before its
+#     results were overwritten (a result that is a view of a memo / cache comes back poisoned).
+# A failure is reported as the kind "__seq__" whose params hold the two (kind, params) steps: that is the replay.
+
+ALIAS_EVERY = 5
+ALIAS_RING = 3
+
+
+def _float_arrays(out):
+    arrs = []
+    for a in (out if isinstance(out, (list, tuple)) else [out]):
+        if isinstance(a, np.ndarray) and a.dtype.kind in "fc" and a.size:
+            arrs.append(a)
+    return arrs
+
+
+def _param_arrays(o, acc=None):
+    acc = [] if acc is None else acc
+    if isinstance(o, np.ndarray):
+        acc.append(o)
+    elif isinstance(o, dict):
+        for v in o.values():
+            _param_arrays(v, acc)
+    elif isinstance(o, (list, tuple)):
+        for v in o:
+            _param_arrays(v, acc)
+    return acc
+
+
+def _poison(out, params):
+    """copy the outputs, overwrite the originals with NaN; returns (copies, list of poisoned originals)"""
+    copies = [np.array(a, copy=True) if isinstance(a, np.ndarray) else a for a in (out if isinstance(out, (list, tuple)) else [out])]
+    pars = _param_arrays(params)
+    poisoned = []
+    for a in _float_arrays(out):
+        try:
+            if not a.flags.writeable or any(np.shares_memory(a, q) for q in pars):
+                continue
+            a[...] = np.nan
+            poisoned.append(a)
+        except Exception:
+            pass
+    return copies, poisoned
+
+
+def _same(a, b):
+    if len(a) != len(b):
+        return False
+    for u, v in zip(a, b):
+        if isinstance(u, np.ndarray) or isinstance(v, np.ndarray):
+            u = np.asarray(u)
+            v = np.asarray(v)
+            if u.shape != v.shape or not np.array_equal(u, v, equal_nan=(u.dtype.kind in "fc" and v.dtype.kind in "fc")):
+                return False
+        elif isinstance(u, float) and isinstance(v, float) and u != u and v != v:
+            continue
+        elif u != v:
+            return False
+    return True
+
+
+class AliasProbe:
+    def __init__(self, kinds):
+        self.kinds = kinds
+        self.ring = []          # (kind, params0, poisoned originals)
+        self.n = 0
+        self.failures = []
+        self.checked = 0
+
+    def call(self, kind, params0, params):
+        """run the implementation of one case under the protocol; returns the COPIES of its outputs (or raises what it raises)"""
+        spec = self.kinds[kind]
+        out = spec["impl"](params)
+        copies, poisoned = _poison(out, params)
+        # earlier results must still be as the caller left them
+        for (k0, p0, arrs) in self.ring:
+            for a in arrs:
+                if not np.all(np.isnan(a.real) if a.dtype.kind == "c" else np.isnan(a)):
+                    self.failures.append({"kind": "__seq__", "params": {"steps": [[k0, p0], [kind, params0]], "what": "kept"},
+                                          "what": "an array returned by an earlier call (%s) was overwritten by a later call (%s): results "
+                                                  "share a work buffer" % (k0, kind), "source": "oracle"})
+                    arrs.remove(a)
+                    break
+        self.n += 1
+        if poisoned and not spec.get("no_repeat") and self.n % ALIAS_EVERY == 0:
+            self.checked += 1
+            try:
+                out2 = spec["impl"](params)
+                c2, p2 = _poison(out2, params)
+                poisoned = poisoned + p2
+                if not _same(copies, c2):
+                    self.failures.append({"kind": "__seq__", "params": {"steps": [[kind, params0], [kind, params0]], "what": "repeat"},
+                                          "what": "the same call (%s) made a second time, after the caller overwrote the first call's "
+                                                  "results in place, does not return the first call's values: results alias a "
+                                                  "cache" % kind, "source": "oracle"})
+            except Exception as e:
+                self.failures.append({"kind": "__seq__", "params": {"steps": [[kind, params0], [kind, params0]], "what": "repeat"},
+                                      "what": "the same call (%s) made a second time raised %s: %s" % (kind, type(e).__name__, str(e)[:120]),
+                                      "source": "oracle"})
+        if poisoned:
+            self.ring.append((kind, params0, poisoned))
+            self.ring = self.ring[-ALIAS_RING:]
+        return copies
+
+
+def run_seq(mod, params, res):
+    """replay of a '__seq__' failure: the steps under the same protocol (second step forced to be checked)"""
+    probe = AliasProbe(mod.KINDS)
+    steps = params["steps"]
+    for j, (k, p) in enumerate(steps):
+        if params.get("what") == "repeat" and j == 1:
+            break
+        probe.n = ALIAS_EVERY - 1 if params.get("what") == "repeat" else 0
+        try:
+            probe.call(k, p, materialize(p))
+        except Exception as e:
+            res.failures.append({"kind": "__seq__", "params": params, "what": "step %d raised %r" % (j, e), "source": "oracle"})
+    res.failures.extend(probe.failures)
+
+
 def run_cases(mod, cases, res, tier):
     """cases: list of (kind, params).  For each: oracle on the real code, and implementation vs model."""
     kinds = mod.KINDS
     reqs = []   # (case index, mode, line)
     impl_out = {}
+    probe = AliasProbe(kinds)
     for idx, (kind, params0) in enumerate(cases):
+        if kind == "__seq__":
+            res.n_cases += 1
+            res.n_oracle += 1
+            run_seq(mod, params0, res)
+            continue
         spec = kinds[kind]
         params = materialize(params0)
         res.n_cases += 1
@@ -400,11 +533,14 @@ def run_cases(mod, cases, res, tier):
             if r is not None:
                 mode, line = r
                 try:
-                    out = spec["impl"](params)
+                    out = probe.call(kind, params0, params)
                     impl_out[idx] = ("ok", out)
                 except Exception as e:
                     impl_out[idx] = ("err", err_kind(e), repr(e)[:200])
                 reqs.append((idx, mode, line))
+    res.failures.extend(probe.failures)
+    res.count("alias-protocol:calls", probe.n)
+    res.count("alias-protocol:repeated", probe.checked)
     if reqs:
         shards = 8 if len(reqs) > 64 else 1
         replies = proto.run_driver([l for _, _, l in reqs], shards=shards)
